@@ -21,6 +21,30 @@ class Unsupported(Exception):
     pass
 
 
+# A spec that could not decide some scenario prints an `INCONCLUSIVE: ...` line where it happens; counterexamples found
+# elsewhere still stand, but the run must never be taken for a pass.  The line is repeated as the very last line of the
+# output so that a driver which only keeps the tail of the output sees it.
+import atexit
+import builtins
+_seen_inconclusive = []
+_plain_print = builtins.print
+
+
+def _watching_print(*args, **kwargs):
+    if args and isinstance(args[0], str) and args[0].startswith("INCONCLUSIVE"):
+        _seen_inconclusive.append(args[0][:300])
+    return _plain_print(*args, **kwargs)
+
+
+builtins.print = _watching_print
+
+
+@atexit.register
+def _repeat_inconclusive():
+    if _seen_inconclusive:
+        _plain_print("FINAL-INCONCLUSIVE: %s" % _seen_inconclusive[0], flush=True)
+
+
 # ------------------------------------------------------------------ parsing
 
 class Fn:
@@ -507,7 +531,7 @@ class Engine:
         if re.match(r"^[A-Za-z_]\w*(::[A-Za-z_]\w*)*::[A-Z]\w*$", s):
             # a tuple-variant constructor used as a function item, e.g. `Value::Int`
             return ("ctor", "::".join(s.split("::")[-2:]))
-        if re.match(r"^[a-z_]\w*(::(?:<impl [^>]*>|[A-Za-z_]\w*))*(::<.*>)?$", s) and (s in self.fns or any(n.endswith("::" + s) or s.endswith("::" + n) for n in self.fns) or "::" in s):
+        if re.match(r"^(?:[a-z_]\w*|String|Vec|Option|Result|Box|Arc)(::(?:<impl [^>]*>|[A-Za-z_]\w*))*(::<.*>)?$", s) and (s in self.fns or any(n.endswith("::" + s) or s.endswith("::" + n) for n in self.fns) or "::" in s):
             # a function item passed as a value (e.g. a parser function handed to a combinator)
             return ("fnitem", s)
         raise Unsupported("operand " + s)
@@ -1072,6 +1096,8 @@ def ext_res_map(e, m, args):
     if r[1].endswith("Ok"):
         if isinstance(clo, tuple) and clo and clo[0] == "ctor":
             return ("enum", "Result::Ok", [("enum", clo[1], [r[2][0]])])
+        if isinstance(clo, tuple) and clo and clo[0] == "fnitem":
+            return ("enum", "Result::Ok", [e.call(clo[1], [r[2][0]])])
         return ("enum", "Result::Ok", [_closure_call(e, m, [r[2][0]], clo)])
     return r
 
@@ -1277,6 +1303,7 @@ STD_MODELS = [
     (r"^<str as ToString>::to_string$", ext_str_to_string),
     (r"^std::option::Option::<.*>::ok_or::<.*>$", ext_generic_ok_or),
     (r"^std::result::Result::<.*>::map::<.*\{closure@.*\}>$", ext_res_map),
+    (r"^(?:std::result::)?Result::<.*>::map::<.*fn\(.*\) -> .* \{.*\}>$", ext_res_map),
     (r"^std::result::Result::<.*>::map_err::<.*\{closure@.*\}>$", ext_res_map_err),
     # ---- general fallbacks (spec-local models are matched first)
     (r"^core::bool::<impl bool>::then::<.*>$", ext_bool_then),
